@@ -51,6 +51,27 @@ pub fn probe(name: &str, cmd: &mut ProbeCmd) -> bool {
     }
 }
 
+static LOCKS: Lazy<std::sync::RwLock<Vec<(String, String, usize)>>> =
+    Lazy::new(|| std::sync::RwLock::new(Vec::new()));
+
+/// Records which lock (by address, see `verif_sync`) plays which role ("M" = store,
+/// "O" = order queue) for the cache behind probe `name`.
+pub fn register_lock(name: &str, role: &str, id: usize) {
+    LOCKS.write().unwrap().push((name.to_string(), role.to_string(), id));
+}
+
+/// (owner, role, lock address) of every lock registered so far, including the
+/// process-wide registries.
+pub fn lock_table() -> Vec<(String, String, usize)> {
+    let mut t = LOCKS.read().unwrap().clone();
+    for (role, id) in crate::InvalidationRegistry::global().verif_lock_ids() {
+        t.push(("registry".to_string(), role.to_string(), id));
+    }
+    #[cfg(feature = "stats")]
+    t.push(("registry".to_string(), "SR".to_string(), crate::stats_registry::verif_lock_id()));
+    t
+}
+
 pub fn probe_names() -> Vec<String> {
     PROBES.read().unwrap().keys().cloned().collect()
 }
